@@ -582,17 +582,40 @@ func init() {
 	externals["(*sync.RWMutex).Unlock"] = externals["(*sync.Mutex).Unlock"]
 	externals["(*sync.RWMutex).RLock"] = externals["(*sync.Mutex).Lock"]
 	externals["(*sync.RWMutex).RUnlock"] = externals["(*sync.Mutex).Unlock"]
+	// sync.Pool keeps what is Put and hands it out again (last in, first
+	// out), which is what makes state left in a pooled object visible to the
+	// next user; the real pool may also drop items, in which case New runs,
+	// as it does here when the pool is empty.
 	externals["(*sync.Pool).Get"] = func(fr *frame, args []value) (value, bool) {
+		in := fr.in
 		p := cellOf(args[0])
+		if items := in.pools[p]; len(items) > 0 {
+			v := items[len(items)-1]
+			in.logUndo(func() { in.pools[p] = items })
+			in.pools[p] = items[:len(items)-1:len(items)-1]
+			in.hbAcquire(p)
+			return done(v)
+		}
 		s := (*p).(structure)
 		// the New field is the last exported field
 		newFn := s[len(s)-1]
 		if funcIsNil(newFn) {
 			return done(iface{})
 		}
-		return done(fr.in.call(fr, 0, newFn, nil))
+		return done(in.call(fr, 0, newFn, nil))
 	}
-	externals["(*sync.Pool).Put"] = nop
+	externals["(*sync.Pool).Put"] = func(fr *frame, args []value) (value, bool) {
+		in := fr.in
+		p := cellOf(args[0])
+		if in.pools == nil {
+			in.pools = map[*value][]value{}
+		}
+		old := in.pools[p]
+		in.logUndo(func() { in.pools[p] = old })
+		in.pools[p] = append(old[:len(old):len(old)], args[1])
+		in.hbRelease(p)
+		return done(nil)
+	}
 	externals["(*sync.WaitGroup).Add"] = func(fr *frame, args []value) (value, bool) {
 		fr.in.wgAdd(cellOf(args[0]), int(asInt64(args[1])))
 		return done(nil)
